@@ -112,7 +112,7 @@ def normalize_newlines(doc):
     return doc.replace('\r\n', '\n').replace('\r', '\n')
 
 
-def judge_identity(d, r, info, model):
+def judge_identity(d, r, info, model, base_info=None, base_model=None):
     """-> None (fine) | (what, finding-or-None)"""
     exp = normalize_newlines(d) if not d.startswith('<?xml') else d
     if 'out' not in r:
@@ -122,9 +122,10 @@ def judge_identity(d, r, info, model):
     inside = bool(info.get('dissect_ok'))
     if inside:
         return ('statement-free document (all tags well dissected) does not render to itself', None)
-    # outside the theorem's domain: tag soup.  It is the recorded finding only if the faithful
-    # model reproduces the observed output exactly.
-    if model == r:
+    # outside the theorem's domain: tag soup.  It is the recorded finding D-03b only if the model
+    # instantiated with the *frozen regexes of the unchanged tree* already loses these characters
+    # in exactly this way (so a change that widens the lossy domain is not explained by it).
+    if base_model == r and base_info is not None and not base_info.get('dissect_ok'):
         return ('tag soup loses characters', 'D-03b')
     return ('statement-free tag-soup document renders to something neither the input nor what the model predicts', None)
 
@@ -156,11 +157,13 @@ def oracle(ctx):
     if ctx.model_ok:
         infos = core.par_batch([{'op': 'dissect', 's': d} for d in docs])
         models = core.par_batch([{'op': 'static', 's': d} for d in docs])
+        binfos = core.par_batch([{'op': 'dissect', 's': d, 'rx': 'baseline'} for d in docs])
+        bmodels = core.par_batch([{'op': 'static', 's': d, 'rx': 'baseline'} for d in docs])
     else:
-        infos = models = [{} for _ in docs]
+        infos = models = binfos = bmodels = [{} for _ in docs]
     hist = {}
-    for d, o, m in zip(docs, infos, models):
-        if o.get('timeout') or m.get('timeout'):
+    for d, o, m, bo, bm in zip(docs, infos, models, binfos, bmodels):
+        if o.get('timeout') or m.get('timeout') or bo.get('timeout') or bm.get('timeout'):
             ctx.count('model_timeouts')
             continue
         try:
@@ -176,7 +179,7 @@ def oracle(ctx):
         hist[kind] = hist.get(kind, 0) + 1
         if markupgen.has_tag_with_attr(d) and 'out' in r:
             seen.add(d)
-        j = judge_identity(d, r, info, m.get('ok'))
+        j = judge_identity(d, r, info, m.get('ok'), bo.get('ok'), bm.get('ok'))
         if j:
             exp = normalize_newlines(d) if not d.startswith('<?xml') else d
             ctx.violation(j[0], d, expected=exp, actual=r, finding=j[1])
